@@ -593,7 +593,45 @@ def check_rethreading(ctx):
     res = ctx.res
     seq_classes = {"lena.core.sequence.Sequence", "lena.core.fill_seq.FillSeq", "lena.core.fill_compute_seq.FillComputeSeq",
                    "lena.core.fill_request_seq.FillRequestSeq", "lena.core.source.Source"}
-    n = 0
+    def element_names(fn):
+        """Locals of fn that hold (some of) the elements of the sequence: derived from self._data_seq / self._seq / the
+        constructor's arguments by assignment, iteration or append/extend."""
+        params = [x for x in A.func_params(fn) if x != "self"]
+        tainted = set(params)
+
+        def is_src(e):
+            return any((isinstance(x, ast.Attribute) and (A.is_self_attr(x, "_data_seq") or A.is_self_attr(x, "_seq")))
+                       or (isinstance(x, ast.Name) and x.id in tainted) for x in ast.walk(e))
+        changed = True
+        while changed:
+            changed = False
+            for st in A.walk_local(fn):
+                new = set()
+                if isinstance(st, ast.Assign) and is_src(st.value):
+                    for tg in st.targets:
+                        new.update(A.target_names(tg))
+                elif isinstance(st, ast.For) and is_src(st.iter):
+                    new.update(A.target_names(st.target))
+                elif isinstance(st, ast.Call) and isinstance(st.func, ast.Attribute) and st.func.attr in ("append", "extend", "insert") \
+                        and isinstance(st.func.value, ast.Name) and any(is_src(a) for a in st.args):
+                    new.add(st.func.value.id)
+                if new - tainted:
+                    tainted |= new
+                    changed = True
+        return tainted, is_src
+
+    def builds_partial(fn):
+        """Calls in fn that construct a LenaSequence subclass from elements of the sequence."""
+        tainted, is_src = element_names(fn)
+        return [c for c in A.walk_local(fn) if isinstance(c, ast.Call) and res.call_canon(c) in seq_classes and any(is_src(a) for a in c.args)]
+
+    # module-level helpers of lena.core that do so on behalf of a constructor (they take the sequence as a parameter)
+    helpers = {}
+    for mod, fn in ctx.tree.functions():
+        if mod.name.startswith("lena.core.") and A.enclosing_func(fn) is None and A.enclosing_class(fn) is None and builds_partial(fn):
+            helpers[mod.name + "." + fn.name] = fn
+    ctx.note("rethread_helpers", sorted(helpers))
+    n = n_partial = 0
     for mod, cls in ctx.tree.classes():
         if not mod.name.startswith("lena.core."):
             continue
@@ -604,8 +642,10 @@ def check_rethreading(ctx):
         if init is None:
             continue
         n += 1
+        mine = {id(c) for c in builds_partial(init)}
+        reported = False
         for p in P.paths_of(init):
-            if p.end == "raise":
+            if p.end == "raise" or reported:
                 continue
             threads = []
             partial = []
@@ -615,20 +655,27 @@ def check_rethreading(ctx):
                     threads.append(i)
                 elif A.src(c.func) == "self._set_context":
                     threads.append(i)
-                elif res.call_canon(c) in seq_classes and any(isinstance(x, ast.Attribute) and A.is_self_attr(x, "_data_seq")
-                                                              for a in c.args for x in ast.walk(a)):
+                elif id(c) in mine or res.call_canon(c) in helpers:
                     partial.append((i, c))
+            # a thread that was attempted and ended in the tolerated LenaKeyError (a formatting key is missing: the context is
+            # requested later and raises then) is a thread
+            for i, e in enumerate(p.ev):
+                if e[0] == "partial" and any(isinstance(c, ast.Call) and A.src(c.func) == "self._set_context" for c in A.walk_local(e[1])):
+                    threads.append(i)
             if not partial:
                 continue
+            n_partial += 1
             last = max(i for i, _ in partial)
             ok = any(t2 > last for t2 in threads)
-            ctx.check("C13-g", ok, partial[-1][1], "%s.__init__ builds `%s` from self._data_seq after the static context was threaded and does "
-                      "not thread it again: the data elements are handed a context computed without the context elements (SetContext) "
-                      "of this sequence, e.g. %s(first, Sequence(SetContext('b', 2)), SetContext('b', 3), Write('{{b}}')) leaves the "
-                      "Write with b = 2" % (cls.name, A.short(partial[-1][1], 50), cls.name),
-                      detail="%s.__init__ re-threads the context after building a sequence of data elements" % cls.name,
+            if not ok:
+                reported = True
+            ctx.check("C13-g", ok, partial[-1][1], "%s.__init__ builds `%s` from elements of the sequence after the static context was threaded "
+                      "and, on the path [%s], does not thread it again: those elements are handed a context computed without the context "
+                      "elements (SetContext) of this sequence, e.g. %s(first, Sequence(SetContext('b', 2)), SetContext('b', 3), "
+                      "Write('{{b}}')) leaves the Write with b = 2" % (cls.name, A.short(partial[-1][1], 50), p.describe(3), cls.name),
+                      detail="%s.__init__ re-threads the context after building a sequence of its elements [%s]" % (cls.name, p.describe(2)),
                       construct="rethread:%s" % cls.name, path=p)
-            break
+    ctx.instances_floor("C13-g/partial", n_partial, 3, "constructor paths that build an inner sequence")
     ctx.instances_floor("C13-g", n, 5, "constructors of LenaSequence subclasses in lena.core")
 
 
@@ -643,6 +690,10 @@ def check(ctx):
 
 
 VARIANTS = [
+    M("source-rethread-only-when-context-known", "lena/core/source.py", "            try:\n                self._set_context({})\n            except LenaKeyError:\n                pass\n        else:\n            self._tail = ()",
+      "            if hasattr(self, \"_static_context\"):\n                try:\n                    self._set_context({})\n                except LenaKeyError:\n                    pass\n        else:\n            self._tail = ()", ["C13-g"]),
+    M("revert-fix-fill-compute-seq-rethread", "lena/core/fill_compute_seq.py", "        try:\n            self._set_context({})\n        except exceptions.LenaKeyError:\n            pass\n", "", ["C13-g"]),
+    M("fill-request-seq-threads-first", "lena/core/fill_request_seq.py", "        super(FillRequestSeq, self).__init__(*self._data_seq)\n", "", ["C13-g"]),
     M("source-tail-not-rethreaded", "lena/core/source.py", "            try:\n                self._set_context({})\n            except LenaKeyError:\n                pass\n        else:\n            self._tail = ()", "        else:\n            self._tail = ()", ["C13-g"]),
     M("makefilename-shallow-merge", "lena/output/make_filename.py", "                full_context = deepcopy(self._context)\n                # runtime context takes precedence over the static one\n                full_context.update(context)", "                full_context = self._context.copy()\n                lena.context.update_recursively(full_context, context)", ["C13-e"]),
     M("makefilename-alias-update", "lena/output/make_filename.py", "                full_context = deepcopy(self._context)\n", "                full_context = self._context\n", ["C13-e"]),
